@@ -185,6 +185,8 @@ type FnCtx struct {
 	frameOnly bool // computing the caller-visible frame (callee writes into its own fresh objects do not count)
 	firstIter []string
 	allocOrder map[*ssa.Alloc]int
+	allProps  []string // the function's properties plus those of its tagged clauses
+	rngStart  map[ssa.Value]string // range over a map -> the key set of the map when the range started
 	iterMap   map[ssa.Value]string
 	iterMapT  map[ssa.Value]*types.Map
 	keepTrivial bool
@@ -306,7 +308,27 @@ func (c *FnCtx) oblige(st *State, kind, anchor string, pos token.Pos, cond, text
 	}
 	props := tags
 	if len(props) == 0 {
-		props = c.fc.Serves
+		// an untagged obligation (safety, loop invariant, callee precondition, untagged clause) supports every
+		// clause of the function: it counts for the function's properties and for those of its tagged clauses
+		if c.allProps == nil {
+			seen := map[string]bool{}
+			for _, p := range c.fc.Serves {
+				if !seen[p] {
+					seen[p] = true
+					c.allProps = append(c.allProps, p)
+				}
+			}
+			for _, cl := range c.fc.Clauses {
+				for _, p := range cl.Tags {
+					if !seen[p] {
+						seen[p] = true
+						c.allProps = append(c.allProps, p)
+					}
+				}
+			}
+			sort.Strings(c.allProps)
+		}
+		props = c.allProps
 	}
 	if trivialTrue(cond) && !c.keepTrivial {
 		return nil
@@ -810,6 +832,19 @@ func (c *FnCtx) load(st *State, p VPtr, pos token.Pos) Val {
 	v, _ = rebuild(v, ts)
 	if inv := c.typeInv(st, v, t); inv != "true" {
 		c.assert(inv)
+	}
+	if p.Root == rootObj && c.freshFamily(fam) && c.entry != nil {
+		// under "modifies fresh" an object older than this call still holds what it held at entry,
+		// and the heap at entry refers only to objects that existed then (well-typed heap)
+		old := lt(p.Ref, c.entry.nextRef)
+		switch x := v.(type) {
+		case VInt:
+			if _, isMap := t.Underlying().(*types.Map); isMap {
+				c.assert(implies(old, lt(x.T, c.entry.nextRef)))
+			}
+		case VSlice:
+			c.assert(implies(old, lt(x.Base, c.entry.nextRef)))
+		}
 	}
 	if p.Root == rootElem && len(p.Path) == 0 {
 		if ref, ok := atoiSafe(p.Ref); ok {
